@@ -562,3 +562,128 @@ func (c *Ctx) codecLengthTables() {
 	c.typeTables()
 	c.encodersWriteEveryByte()
 }
+
+const ruleT16 = "T16-provider-wiring"
+
+// providerWiring: the stores a broker works on are the ones it was configured with, and a client's callback tree is
+// its own. (server) every sessions / topics / auth NewManager call in a method of Server is handed the value of the
+// Server field that configures it (SessionsProvider, TopicsProvider, Authenticator - after defaulting, which stores
+// into that field); (client) the name a Client hands to topics.NewManager is one it registered in the same function
+// with a provider fresh from NewMemProvider.
+func (c *Ctx) providerWiring(server, client bool) {
+	c.R.Rule(ruleT16, "(server) the argument of sessions.NewManager / topics.NewManager / auth.NewManager in a method of Server is a load of Server.SessionsProvider / TopicsProvider / Authenticator; (client) the argument of topics.NewManager in a method of Client is the same expression as the name of a dominating topics.Register whose provider is the result of topics.NewMemProvider.")
+	field := map[string]string{pkgSessions: "SessionsProvider", pkgTopics: "TopicsProvider", core.ModPath + "/auth": "Authenticator"}
+	ns, nc := 0, 0
+	for _, fn := range c.P.Funcs {
+		if fn.Pkg == nil || fn.Pkg.Pkg.Path() != pkgService {
+			continue
+		}
+		host := fn
+		for host.Parent() != nil {
+			host = host.Parent()
+		}
+		rn := recvNamed(host)
+		if rn != "Server" && rn != "Client" {
+			continue
+		}
+		for _, call := range ir.Calls(fn) {
+			callee := call.Common().StaticCallee()
+			if callee == nil || callee.Name() != "NewManager" || callee.Pkg == nil || len(call.Common().Args) != 1 {
+				continue
+			}
+			want, known := field[callee.Pkg.Pkg.Path()]
+			if !known {
+				continue
+			}
+			arg := ir.SeeThrough(call.Common().Args[0])
+			if rn == "Server" && server {
+				ns++
+				isField := func(v ssa.Value) bool {
+					ld, isLd := ir.SeeThrough(v).(*ssa.UnOp)
+					if !isLd || ld.Op != token.MUL {
+						return false
+					}
+					p := ir.PathOf(ld.X)
+					return len(p.Fields) > 0 && p.Fields[len(p.Fields)-1] == want
+				}
+				ok := isField(arg)
+				// `name := svr.X; if name == "" { name = "mem" }`: the field, or the default where the field is empty
+				if phi, isPhi := arg.(*ssa.Phi); isPhi {
+					nf := 0
+					ok = true
+					for _, e := range phi.Edges {
+						if isField(e) {
+							nf++
+						} else if _, isK := ir.SeeThrough(e).(*ssa.Const); !isK {
+							ok = false
+						}
+					}
+					ok = ok && nf > 0
+				}
+				c.R.Check(ok, ruleT16, fmt.Sprintf("%s:%s.NewManager:configured-provider", fname(host), callee.Pkg.Pkg.Name()), c.P.InstrPos(call),
+					"the manager is created for Server."+want,
+					fmt.Sprintf("%s.NewManager in %s is not handed Server.%s: a broker configured with its own provider silently works on another store - state of other brokers in the process (sessions, subscriptions, retained messages) shows up in it and its own provider never sees any", callee.Pkg.Pkg.Name(), fname(host), want))
+			}
+			if rn == "Client" && client && callee.Pkg.Pkg.Path() == pkgTopics {
+				nc++
+				ok := false
+				for _, r := range ir.Calls(fn) {
+					rc := r.Common().StaticCallee()
+					if rc == nil || rc.Name() != "Register" || rc.Pkg != callee.Pkg || len(r.Common().Args) != 2 {
+						continue
+					}
+					ri, isI := r.(ssa.Instruction)
+					ci, isI2 := call.(ssa.Instruction)
+					if !isI || !isI2 || !(ri.Block() == ci.Block() && ir.Before(ri, ci) || ri.Block() != ci.Block() && ri.Block().Dominates(ci.Block())) {
+						continue
+					}
+					prov := ir.SeeThrough(r.Common().Args[1])
+					if mi, isMI := prov.(*ssa.MakeInterface); isMI {
+						prov = ir.SeeThrough(mi.X)
+					}
+					pc, isCall := prov.(*ssa.Call)
+					if !isCall || pc.Common().StaticCallee() == nil || pc.Common().StaticCallee().Name() != "NewMemProvider" {
+						continue
+					}
+					if sameNameExpr(ir.SeeThrough(r.Common().Args[0]), arg) {
+						ok = true
+					}
+				}
+				c.R.Check(ok, ruleT16, fmt.Sprintf("%s:topics.NewManager:own-fresh-provider", fname(host)), c.P.InstrPos(call),
+					"the client's callback tree is a provider created and registered in the same function",
+					"the Client takes its callback tree from a provider it did not create for itself: every Client (and Server) in the process that uses that provider shares one tree, so a PUBLISH received by one client runs the callbacks of the others")
+			}
+		}
+	}
+	if server {
+		c.R.Count("NewManager calls of Server", ns)
+		c.R.Floor("NewManager calls of Server (auth, sessions, topics)", ns, 3)
+	}
+	if client {
+		c.R.Count("topics.NewManager calls of Client", nc)
+		c.R.Floor("topics.NewManager calls of Client (Connect, ConnectTLS)", nc, 1)
+	}
+}
+
+// sameNameExpr: two string expressions that denote the same value by construction: the same SSA value, equal
+// constants, or calls of the same method without arguments on receivers reached over the same field path.
+func sameNameExpr(a, b ssa.Value) bool {
+	if a == b {
+		return true
+	}
+	if ka, ok := a.(*ssa.Const); ok {
+		kb, ok2 := b.(*ssa.Const)
+		return ok2 && ka.Value != nil && kb.Value != nil && ka.Value.ExactString() == kb.Value.ExactString()
+	}
+	ca, ok1 := a.(*ssa.Call)
+	cb, ok2 := b.(*ssa.Call)
+	if !ok1 || !ok2 {
+		return false
+	}
+	fa, fb := ca.Common().StaticCallee(), cb.Common().StaticCallee()
+	if fa == nil || fa != fb || len(ca.Common().Args) != 1 || len(cb.Common().Args) != 1 {
+		return false
+	}
+	pa, pb := ir.PathOf(ca.Common().Args[0]), ir.PathOf(cb.Common().Args[0])
+	return pa.Root == pb.Root && pa.String() == pb.String()
+}
